@@ -268,20 +268,39 @@ Section Reduce.
   Qed.
 End Reduce.
 
-(* the generic template: every source value the element type holds exactly (all values of the narrow native types;
-   long long / unsigned long long below 2^prec) *)
+(* the generic template (repaired, fix-13): an integral source with more digits than the mantissa is forwarded to the exact 64-bit
+   specialisation (every value of the type); every other source is converted and reduced (every value the element type holds exactly:
+   all values of the narrow native types) *)
+From C04 Require Import ProofsRings.
 Definition ex_generic_ok (prec : Z) (s : src) (a : Z) : Prop :=
   match s with
-  | SI T => (if prec =? 24 then 32 <=? bits T else bits T =? 64) = false /\ Z.abs a < 2 ^ prec
-  | SLL _ => Z.abs a < 2 ^ prec
+  | SI T => (if prec =? 24 then 32 <=? bits T else bits T =? 64) = false /\ wf T /\ bits T <= 64 /\ in_range T a /\
+            (src_digits s <= prec -> Z.abs a < 2 ^ prec)
+  | SLL sgn => fits64 sgn a /\ (src_digits s <= prec -> Z.abs a < 2 ^ prec)
   | _ => False
   end.
+Lemma in_range_fits64 T a : wf T -> bits T <= 64 -> in_range T a -> fits64 (sg T) a.
+Proof.
+  unfold wf, in_range, tmin, tmax, fits64. intros W B H.
+  pose proof (pow2_le (bits T) 64 ltac:(lia)). pose proof (pow2_le (bits T - 1) 63 ltac:(lia)).
+  destruct (sg T); lia.
+Qed.
+Lemma ex_generic_correct prec p s a : 1 < prec -> 2 <= p <= 2 ^ (prec - 1) ->
+  fits64 (src_signed s) a -> (src_digits s <= prec -> Z.abs a < 2 ^ prec) ->
+  exists r, ex_generic prec p s a = Some r /\ residue p a r.
+Proof.
+  intros Hprec Hp H64 Hsm. unfold ex_generic. destruct (Z.ltb_spec prec (src_digits s)).
+  - assert (cast (Ity 64 (src_signed s)) a = a) as ->.
+    { unfold fits64 in H64. destruct (src_signed s); [apply cast_i64_id; lia | apply cast_id; unfold wf, tmin, tmax; cbn; lia]. }
+    apply ex_exact_correct; [lia|]. intros E. unfold fits64 in H64. rewrite E in H64. lia.
+  - eexists; split; [reflexivity|]. rewrite rnd_exact by lia. apply ex_reduce_correct; auto.
+Qed.
 Theorem ex_init_generic_correct prec p s a : 1 < prec -> 2 <= p <= 2 ^ (prec - 1) -> ex_generic_ok prec s a ->
   exists r, ex_init prec p s a = Some r /\ residue p a r.
 Proof.
   intros Hprec Hp H. destruct s as [T|sprec| |K|sgn]; cbn [ex_generic_ok ex_init] in *; try contradiction.
-  - destruct H as [-> Ha]. eexists; split; [reflexivity|]. rewrite rnd_exact by lia. apply ex_reduce_correct; auto.
-  - eexists; split; [reflexivity|]. rewrite rnd_exact by lia. apply ex_reduce_correct; auto.
+  - destruct H as (-> & W & B & Ha & Hs). apply ex_generic_correct; auto. apply in_range_fits64; auto.
+  - destruct H as (H64 & Hs). apply ex_generic_correct; auto.
 Qed.
 
 (* where `>=` is needed: the value handed to the correction tail IS p for p = 49, a = 49 (double) -- with `a > _p` the
@@ -301,12 +320,11 @@ Proof. exists 49, 49. vm_compute. repeat split; try reflexivity; discriminate. Q
 (* the hypotheses are satisfiable (double: prec = 53, float: prec = 24; maxCardinality = 2^(prec-3) - 1 <= 2^(prec-1)) *)
 Example ex_reduce_hyps_double : 1 < 53 /\ 2 <= 2 ^ 50 - 1 <= 2 ^ (53 - 1) /\ Z.abs (- (2 ^ 53 - 1)) < 2 ^ 53 /\ ex_reduce 53 49 98 = 0.
 Proof. vm_compute. repeat split; try reflexivity; discriminate. Qed.
-Example ex_reduce_hyps_float : 1 < 24 /\ 2 <= 2 ^ 21 - 1 <= 2 ^ (24 - 1) /\ ex_generic_ok 24 (SI i16) (-32768) /\ ex_generic_ok 53 (SLL true) (2 ^ 53 - 1).
-Proof. vm_compute. repeat split; try reflexivity; discriminate. Qed.
+Example ex_reduce_hyps_float : 1 < 24 /\ 2 <= 2 ^ 21 - 1 <= 2 ^ (24 - 1) /\ ex_generic_ok 24 (SI i16) (-32768) /\ ex_generic_ok 53 (SLL true) (- 2 ^ 63).
+Proof. vm_compute. repeat split; try reflexivity; try discriminate; intros H; try reflexivity; exfalso; apply H; reflexivity. Qed.
 
 (* every source type that has an init form, as ONE statement: the specialisations (ProofsRings.ex_init_specialised_correct) and the
    generic template together *)
-From C04 Require Import ProofsRings.
 Definition ex_every_ok (prec : Z) (s : src) (a : Z) : Prop := ex_src_ok prec s a \/ ex_generic_ok prec s a.
 Theorem ex_init_every_source prec p s a : 1 < prec -> 2 <= p <= 2 ^ (prec - 1) -> ex_every_ok prec s a ->
   exists r, ex_init prec p s a = Some r /\ residue p a r.
@@ -319,5 +337,8 @@ Proof.
   intros Hprec Hp. cbn [mone]. assert (2 ^ prec = 2 * 2 ^ (prec - 1)) by (apply pow2_S; lia).
   rewrite rnd_exact by lia. split; [lia|]. apply (cong_intro p _ _ 1); lia.
 Qed.
-Example ex_every_ok_sat : ex_every_ok 53 (SI i64) (- 2 ^ 63) /\ ex_every_ok 53 (SI i32) (- 2 ^ 31) /\ ex_every_ok 24 SInteger (10 ^ 40) /\ ex_every_ok 24 (SLL false) (2 ^ 24 - 1).
-Proof. repeat split; try (left; vm_compute; repeat split; congruence); right; vm_compute; repeat split; congruence. Qed.
+Example ex_every_ok_sat : ex_every_ok 53 (SI i64) (- 2 ^ 63) /\ ex_every_ok 53 (SI i32) (- 2 ^ 31) /\ ex_every_ok 24 SInteger (10 ^ 40) /\ ex_every_ok 24 (SLL false) (2 ^ 64 - 1).
+Proof.
+  repeat split; try (left; vm_compute; repeat split; congruence); right; vm_compute;
+    repeat split; try reflexivity; try discriminate; intros H; try reflexivity; exfalso; apply H; reflexivity.
+Qed.
